@@ -30,14 +30,23 @@ package common
 //@   loop [range g.Keys]:
 //@     invariant [len] len(r) == len(g.Keys)
 
-// Heartbeat table as seen by the processor's miss notification: a copy whose entries are
-// the non-nil heartbeats recorded by SetHeartbeat (assumed here; SetHeartbeat is only called
-// with the heartbeat decoded from a verified gossip message).
+// Heartbeat table as seen by the processor's miss notification: a copy (never the table's own
+// map, which the gossip goroutine keeps writing) whose entries are the heartbeats recorded by
+// SetHeartbeat; those are non-nil because SetHeartbeat is only called with the heartbeat
+// decoded from a verified gossip message (SetHeartbeat requires it; hbNonNil is part of the monitor invariant).
+//@ pred hbNonNil(st *GuardianSetState) = forall a in dom(st.lastHeartbeats) :: forall k in dom(st.lastHeartbeats[a]) :: st.lastHeartbeats[a][k] != nil
 //@ func (st *GuardianSetState) LastHeartbeat(addr common.Address) (ret map[peer.ID]*gossipv1.Heartbeat)
-//@   assume-contract
+//@   props C03, C13
 //@   requires st != nil
-//@   ensures [copy] ret != nil && fresh(ret) && (forall k in dom(ret) :: ret[k] != nil)
+//@   ensures [copy] ret != nil && fresh(ret)
+//@   ensures [entries-recorded] forall k in dom(ret) :: indom(st.lastHeartbeats[addr], k) && ret[k] == st.lastHeartbeats[addr][k]
+//@   ensures [entries-non-nil] forall k in dom(ret) :: ret[k] != nil
+//@   ensures [table-untouched] unchanged("map[common.Address]map[peer.ID]*gossipv1.Heartbeat") && (forall a in dom(st.lastHeartbeats) :: mapUnchanged(st.lastHeartbeats[a]))
 //@   modifies fresh map[peer.ID]*gossipv1.Heartbeat
+//@   loop [range st.lastHeartbeats[addr]]:
+//@     invariant [copy] ret != nil && fresh(ret) && ret != st.lastHeartbeats[addr] && (forall k in dom(ret) :: indom(st.lastHeartbeats[addr], k) && ret[k] == st.lastHeartbeats[addr][k] && ret[k] != nil)
+//@     invariant [table-untouched] unchangedSinceEntry("map[common.Address]map[peer.ID]*gossipv1.Heartbeat") && (forall a in dom(st.lastHeartbeats) :: mapUnchangedSinceEntry(st.lastHeartbeats[a]))
+//@     invariant [entries-non-nil] hbNonNil(st)
 
 // ---------------------------------------------------------------- heartbeat table (C03)
 
@@ -51,6 +60,7 @@ package common
 //@ monitor (st *GuardianSetState) mu()
 //@   modifies GuardianSetState.lastHeartbeats, GuardianSetState.current, map[peer.ID]*gossipv1.Heartbeat, map[common.Address]map[peer.ID]*gossipv1.Heartbeat
 //@   invariant [cap] hbTable(st)
+//@   invariant [entries-non-nil] hbNonNil(st)
 
 // the other writers of the state: the expiry sweep only removes entries, Set swaps the current set
 //@ func (st *GuardianSetState) Cleanup()
@@ -59,9 +69,9 @@ package common
 //@   ensures [cap] hbTable(st)
 //@   modifies map[peer.ID]*gossipv1.Heartbeat
 //@   loop [range st.lastHeartbeats]:
-//@     invariant [cap] hbTable(st)
+//@     invariant [cap] hbTable(st) && hbNonNil(st)
 //@   loop [range v]:
-//@     invariant [cap] hbTable(st)
+//@     invariant [cap] hbTable(st) && hbNonNil(st)
 
 //@ func (st *GuardianSetState) Set(set *GuardianSet)
 //@   props C03
@@ -77,7 +87,7 @@ package common
 
 //@ func (st *GuardianSetState) SetHeartbeat(addr common.Address, peerId peer.ID, hb *gossipv1.Heartbeat) (err error)
 //@   props C03
-//@   requires st != nil && hbTable(st)
+//@   requires st != nil && hb != nil
 //@   ensures [cap] hbTable(st)
 //@   ensures [reject-no-effect] err != nil ==> unchanged("map[peer.ID]*gossipv1.Heartbeat") && unchanged("map[common.Address]map[peer.ID]*gossipv1.Heartbeat")
 //@   ensures [stored] err == nil ==> indom(st.lastHeartbeats, addr) && indom(st.lastHeartbeats[addr], peerId) && st.lastHeartbeats[addr][peerId] == hb
